@@ -232,6 +232,18 @@ pub fn cmp_expr(m: &E, g: ast::Expr, role: &str) -> Result<(), Mismatch> {
             if !binop_matches(*op, k) {
                 return mm(&format!("{role}/binary-op"), format!("AST node `{}` has operator {k:?}, the derivation has `{}` at this position", gtxt.trim(), op.text()));
             }
+            // the node's other accessors name the same constituents
+            {
+                let rng = |e: &Option<ast::Expr>| e.as_ref().map(|x| x.syntax().text_range());
+                let (s1, s2) = b.sub_exprs();
+                if rng(&s1) != rng(&b.lhs()) || rng(&s2) != rng(&b.rhs()) {
+                    return mm(&format!("{role}/binary-sub_exprs-disagrees-with-lhs-rhs"), format!("`{}`: sub_exprs() = ({:?}, {:?}), lhs()/rhs() = ({:?}, {:?})", gtxt.trim(), rng(&s1), rng(&s2), rng(&b.lhs()), rng(&b.rhs())));
+                }
+                match b.op_details() {
+                    Some((tok, kind)) if kind == k && b.op_token().map(|t| t.text_range()) == Some(tok.text_range()) => {}
+                    other => return mm(&format!("{role}/binary-op_details-disagrees-with-op_kind"), format!("`{}`: op_details() = {:?}, op_kind() = {k:?}", gtxt.trim(), other.map(|x| x.1))),
+                }
+            }
             cmp_expr(l, need(b.lhs(), &format!("{role}/binary-lhs"), "lhs()")?, &format!("{role}/binary-lhs"))?;
             cmp_expr(r, need(b.rhs(), &format!("{role}/binary-rhs"), "rhs()")?, &format!("{role}/binary-rhs"))
         }
